@@ -178,3 +178,80 @@ def run(chk, F, G, rid="R-FRONT"):
                    "in `%s` the %s of an edge is attached through %s, in XML through %s" %
                    (r.sig[:60], f, sorted(cbs), sorted(xml_cb.get(f, set()))), "src/parser.y:%s" % r.line)
     chk.analysed[rid] = {"callbacks_called_by_both_front_ends": both}
+
+
+# ---------------------------------------------------------------------------------------------- R-IDCHARS
+def run_idchars(chk, F, L, rid="R-IDCHARS"):
+    """Names in XML (<name> of templates, locations, instances) are validated by the reader's own `symbol()` helper,
+    names in XTA text by the scanner's identifier rule.  The reader must be able to accept every character the scanner
+    accepts in an identifier: the characters that occur anywhere in the validator (character and string literals,
+    ranges, isalpha/isalnum/isdigit) must cover the scanner's {alpha} and {idchr} classes.  (Over-approximation of
+    the validator: a character that appears nowhere in it cannot be accepted by it.)"""
+    from ..lexer import PatParser
+    chk.rule(rid, "every character of the scanner's identifier classes ({alpha}, {idchr}) occurs in the character "
+                  "material of the XML reader's name validator (symbol() and the helpers / constants it uses)")
+    classes = {}
+    for nm in ("alpha", "idchr"):
+        if nm not in L.defs:
+            raise AnalysisBroken("lexer.l defines no {%s}" % nm)
+        p = PatParser(L.defs[nm], L.defs).parse()
+        if p[0] != "class" or p[2]:
+            raise AnalysisBroken("{%s} is not a positive character class" % nm)
+        classes[nm] = set(p[1])
+    roots = [fn for fn in F.functions.values() if (fn.get("file") or "").endswith("xmlreader.cpp") and fn["name"] == "symbol"]
+    if not roots:
+        raise AnalysisBroken("the XML reader's symbol() validator was not found")
+    seen, todo, material = set(), list(roots), set()
+    lows, highs = [], []
+    import string
+    while todo:
+        fn = todo.pop()
+        if fn["q"] + str(fn.get("sig")) in seen:
+            continue
+        seen.add(fn["q"] + str(fn.get("sig")))
+        for n in walk(fn.get("body")):
+            if n.get("k") == "char":
+                material.add(chr(n["v"]) if isinstance(n["v"], int) else str(n["v"]))
+            elif n.get("k") == "str":
+                material.update(n.get("v") or "")
+            elif n.get("k") == "call":
+                nm = n.get("name") or ""
+                if nm in ("isalpha",):
+                    material.update(string.ascii_letters)
+                elif nm in ("isalnum",):
+                    material.update(string.ascii_letters + string.digits)
+                elif nm == "isdigit":
+                    material.update(string.digits)
+                elif nm in ("isupper",):
+                    material.update(string.ascii_uppercase)
+                elif nm in ("islower",):
+                    material.update(string.ascii_lowercase)
+                for t in F.fns(n.get("fn") or ""):
+                    if (t.get("file") or "").endswith("xmlreader.cpp") and t.get("body") is not None:
+                        todo.append(t)
+            elif n.get("k") == "ref" and n.get("dk") == "global":
+                for g in F.globals.get(n.get("q") or n.get("name"), []):
+                    if g.get("init") is not None:
+                        for x in walk(g["init"]):
+                            if x.get("k") == "str":
+                                material.update(x.get("v") or "")
+                            if x.get("k") == "char":
+                                material.add(chr(x["v"]) if isinstance(x["v"], int) else str(x["v"]))
+            elif n.get("k") == "bin" and n.get("op") in (">=", "<=", ">", "<"):
+                for side, other in ((n["lhs"], n["rhs"]), (n["rhs"], n["lhs"])):
+                    c = side
+                    while c.get("k") == "cast":
+                        c = c["e"]
+                    if c.get("k") == "char":
+                        (lows if n["op"] in (">=", ">") and side is n["rhs"] or n["op"] in ("<=", "<") and side is n["lhs"]
+                         else highs).append(c["v"] if isinstance(c["v"], int) else ord(str(c["v"])[0]))
+    for lo in lows:
+        for hi in highs:
+            if 0 < hi - lo < 64:
+                material.update(chr(x) for x in range(lo, hi + 1))
+    for nm, cs in classes.items():
+        missing = sorted(cs - material)
+        chk.ob(rid, nm, not missing,
+               "the scanner accepts %s in identifiers ({%s}) but the XML reader's name validator cannot: a name containing "
+               "it is fine in an XTA file and `Invalid identifier` in the XML rendering of the same model" %
+               (missing, nm), "%s:%s" % (roots[0]["file"], roots[0]["line"]))
